@@ -828,8 +828,13 @@ class Interp:
         return out
 
     def e_SetComp(self, node, fr):
+        first = self.eval(node.generators[0].iter, fr)
+        if isinstance(first, Model) and hasattr(first, "set_comprehension"):
+            if len(node.generators) != 1:
+                self.unsupported(node, "nested set comprehension over a model")
+            return first.set_comprehension(self, node, node.generators[0], fr)
         out = []
-        self._comp(node.generators, 0, fr, lambda f: out.append(self.eval(node.elt, f)), self.eval(node.generators[0].iter, fr))
+        self._comp(node.generators, 0, fr, lambda f: out.append(self.eval(node.elt, f)), first)
         res = []
         for v in out:
             if not any(self.equal(v, w) is True for w in res):
